@@ -38,8 +38,24 @@ K_TABLE = {
 # quiet-prefix slices (K, Q) per configuration (quick, thorough): K commits of which the first Q are restricted to the
 # handlers with their own clock; they reach mode switches and ends of chain, which lie 3-4 commits into a run, at the
 # price of fixing the kind (not the time) of the leading commits
-QUIET_DEFAULT = [(), ()]
-QUIET_TABLE = {}
+QUIET_DEFAULT = [(), ((4, 3),)]
+_NONE = ((), ())
+QUIET_TABLE = {
+    # (quick, thorough)
+    "2018_JCP_149_064113/dipoles/dipole_motion.ini": (((4, 3),), ((4, 3), (5, 4))),     # (5, 4): ~12 min
+    "2018_JCP_149_064113/dipoles/atom_factors.ini": (((4, 3),), ((4, 3), (5, 4))),
+    "2018_JCP_149_064113/coulomb_atoms/power_bounded.ini": (((5, 4),), ((5, 4), (6, 5))),
+    "2018_JCP_149_064113/coulomb_atoms/power_bounded_dump.ini": ((), ((5, 4), (6, 5))),
+    "hard_disk_dipoles/hard_disk_dipoles.ini": (((4, 3),), ((4, 3), (5, 4))),
+    "hard_disk_dipoles/single_hard_disk_dipole.ini": ((), ((4, 3), (5, 4))),
+    # composite objects in a cell system: a slice of 3 commits does not finish in 5 minutes (and deeper slices are
+    # empty: a cell boundary is always reached before the third own-clock event)
+    "2018_JCP_149_064113/dipoles/cell_bounded.ini": _NONE,
+    "2018_JCP_149_064113/dipoles/cell_veto.ini": _NONE,
+    "2018_JCP_149_064113/water/coulomb_cell_veto_lj_cell_veto.ini": _NONE,
+    "2018_JCP_149_064113/water/coulomb_power_bounded_lj_cell_bounded.ini": _NONE,
+    "hard_disk_dipoles/hard_disk_dipoles_cells.ini": _NONE,
+}
 TITLES = {"C07": "particles move continuously; events only hand velocity over",
           "C08": "a committed event was computed from the current trajectory",
           "C09": "pending candidate events equal a fresh start",
@@ -104,7 +120,7 @@ def main(prop, extra_parts=None):
     tier = 1 if chk.thorough else 0
     if os.environ.get("VERIF_RUNS_K"):
         kq = os.environ["VERIF_RUNS_K"].split(":")
-        kq = int(kq[0]) if len(kq) == 1 else (int(kq[0]), int(kq[1]))
+        kq = int(kq[0]) if len(kq) == 1 else ((int(kq[0]), int(kq[1])) + tuple(kq[2:3]))
         for c in list(K_TABLE) + configs:
             K_TABLE[c] = (kq,) * 2
         QUIET_TABLE.clear()
@@ -126,8 +142,9 @@ def main(prop, extra_parts=None):
                 "every tagger and event-handler class named by the shipped configurations (listed per configuration "
                 "under coverage.parts)")
     chk.bound(configurations=configs,
-              events_per_run={c: [("K=%d" % k) if isinstance(k, int) else ("K=%d with the first %d commits restricted to "
-                                                                           "own-clock handlers" % k)
+              events_per_run={c: [("K=%d" % k) if isinstance(k, int) else
+                                  ("K=%d with the first %d commits restricted to own-clock handlers" % k[:2]
+                                   + ("" if len(k) < 3 else " and commit %d to tagger %s" % (k[1], k[2])))
                                   for k in variants(c)] for c in configs},
               initial_state="symbolic positions in [0, L); composite objects: arbitrary molecules satisfying the "
                             "composite invariant (leaves = centre + offsets with weighted sum zero, |offset| < L/8)",
